@@ -53,6 +53,11 @@ def node_part(tier, seed, res, lean, pid, kinds, ops=None):
     stats['max_edges'] = max(o[0]['max_edges'] for o in outs)
     bad = [b for o in outs for b in o[1] if ops is None or b['record'].get('t') in ops or 'driver' in b['diff']]
     contradicted = [b for b in bad if 'theorem' in b['diff']]
+    mutated = [b for b in bad if b['diff'].get('oracle')]
+    for b in mutated[:2]:
+        res.violations.append(Violation(f'{pid.lower()}-operand-mutated', 'composing changed an operand: ' + str(b['diff'])[:350],
+                                        {'suite': 'S-NODE', **{k: v for k, v in b.items() if k != 'record'}, 'left': b['record'].get('left')}))
+    bad = [b for b in bad if not b['diff'].get('oracle')]
     if bad:
         b = bad[0]
         res.violations.append(Violation(
